@@ -8,8 +8,8 @@ LEVEL = "translation_validation"
 PROP = "C05"
 PROPS_FILE = "C05.v"
 BACKENDS = [("inplace", [0]), ("ir", [0, 1, 2, 3]), ("bc", [0, 2, 3]), ("jit", [0, 2, 3])]
-COUNTS_QUICK = {"mulcounter": 60, "loopio": 40, "iopressure": 120, "diverge": 120, "uniform": 150, "macro": 60, "affine": 60}
-COUNTS_THOROUGH = {"mulcounter": 1500, "loopio": 1000, "iopressure": 3000, "diverge": 1500, "uniform": 3000, "macro": 1000, "affine": 1000}
+COUNTS_QUICK = {"scanclear": 60, "emptyspin": 40, "mulcounter": 60, "loopio": 40, "iopressure": 120, "diverge": 120, "uniform": 150, "macro": 60, "affine": 60}
+COUNTS_THOROUGH = {"scanclear": 1200, "emptyspin": 600, "mulcounter": 1500, "loopio": 1000, "iopressure": 3000, "diverge": 1500, "uniform": 3000, "macro": 1000, "affine": 1000}
 WINDOW_MS = 400
 
 
@@ -46,8 +46,18 @@ def run(res):
                         bad = "events before divergence are not a prefix of the canonical periodic event sequence"
                         stats["bad_prefix"] += 1
                     elif len(t) < len(c.meta["prefix"]):
-                        bad = "events that precede the divergence were not all produced (%d of %d)" % (len(t), len(c.meta["prefix"]))
-                        stats["bad_prefix"] += 1
+                        # the window may simply have been too short (long transient, loaded machine): run this
+                        # case again on its own with a window sized for the prefix before believing it
+                        ms = WINDOW_MS * 10 + len(c.meta["prefix"]) // 5
+                        r2 = C.run_lines(hv, ["runs|%s|%d|%d|exec|0|%d|%s|%s" % (backend, c.w, level, ms, P.hexs(c.src), c.env)], shards=1)[0]
+                        t2 = c07.toks(r2[len("timeout"):].strip()) if r2.startswith("timeout") else None
+                        stats["window_retries"] = stats.get("window_retries", 0) + 1
+                        if t2 is None:
+                            bad = "backend returned (%s) although the canonical run repeats a machine state" % r2[:80]
+                            stats["returned"] += 1
+                        elif len(t2) + 1 < len(c.meta["prefix"]) and len(c.meta["prefix"]) <= 20000:
+                            bad = "events that precede the divergence were not all produced (%d of %d in %d ms)" % (len(t2), len(c.meta["prefix"]), ms)
+                            stats["bad_prefix"] += 1
                     elif not c.meta["period"] and len(t) != len(c.meta["prefix"]):
                         bad = "extra events after the silent cycle was entered"
                         stats["bad_prefix"] += 1
